@@ -145,6 +145,8 @@ type ClientCfg struct {
 	Header    http.Header
 	AcceptEnc string
 	WSCompress bool
+	// OmitEIO leaves the EIO parameter out (the server then assumes revision 3).
+	OmitEIO bool
 	// ProbeAtOnce: send the upgrade probe immediately after the candidate is open (it may
 	// then reach the server before the session has attached its listeners).
 	ProbeAtOnce bool
@@ -210,6 +212,9 @@ func (c *Client) path() string {
 
 func (c *Client) query(withSid bool, transport string) string {
 	q := "EIO=" + strconv.Itoa(c.Cfg.Rev) + "&transport=" + transport
+	if c.Cfg.OmitEIO {
+		q = "transport=" + transport
+	}
 	if c.Cfg.B64 {
 		q += "&b64=1"
 	}
